@@ -60,13 +60,26 @@ def run_rollout(p):
         td = TensorDict({"locs": locs}, batch_size=[N])
 
         class Pol(torch.nn.Module):
-            def forward(self, batch, env=None, decode_type=None, **k):
-                return {"reward": batch["locs"][:, 0, 0] * 3 + 1}
+            """mode-sensitive like a real policy with batch norm: in training mode a row's value depends on its batch-mates"""
 
-        env = types.SimpleNamespace(reset=lambda b: b, name="tsp")
+            def __init__(self):
+                super().__init__()
+                self.bn = torch.nn.BatchNorm1d(1)
+
+            def forward(self, batch, env=None, decode_type=None, **k):
+                x = batch["locs"][:, 0, 0]
+                if self.training:
+                    return {"reward": x * 3 + 1 + x.sum()}
+                return {"reward": x * 3 + 1}
+
+        env = types.SimpleNamespace(reset=lambda b: b, name="tsp", dataset=lambda batch_size=None, **k: ds.TensorDictDataset(td.clone()))
         rb = RolloutBaseline()
-        rb.policy = Pol()
+        actor = Pol().train()
+        rb.setup(actor, env, batch_size=eval_bs, device="cpu", dataset_size=N)
         bad = []
+        if len(rb.bl_vals) != N or any(abs(float(rb.bl_vals[i]) - float(locs[i, 0, 0] * 3 + 1)) > 1e-5 for i in range(N)):
+            bad.append("setup: stored baseline values are not the copied policy's inference-mode rewards")
+        rb.train()  # the trainer puts the whole module tree (baseline policy included) into train mode at every epoch start
         for cls_name in ("TensorDictDataset", "FastTdDataset", "TensorDictDatasetFastGeneration"):
             wrapped = rb.wrap_dataset(getattr(ds, cls_name)(td.clone()), env, batch_size=eval_bs, device="cpu")
             for perm in (list(range(N)), list(range(N))[::-1]):
@@ -76,7 +89,7 @@ def run_rollout(p):
                     for r in range(b.batch_size[0]):
                         i = perm[pos]
                         if "extra" not in b.keys() or not torch.equal(b["locs"][r], locs[i]) or abs(float(b["extra"][r]) - float(locs[i, 0, 0] * 3 + 1)) > 1e-6:
-                            bad.append(f"{cls_name}: loader position {pos} (dataset index {i}) carries a baseline value that is not the baseline policy's reward on that instance")
+                            bad.append(f"{cls_name}: loader position {pos} (dataset index {i}) carries the baseline value {float(b['extra'][r]) if 'extra' in b.keys() else None:.5f}, the baseline policy's inference-mode reward on that instance is {float(locs[i, 0, 0] * 3 + 1):.5f}")
                         pos += 1
         return {"violations": bad[:3]}
     except Exception as e:  # noqa: BLE001
